@@ -84,12 +84,13 @@ def h_inverse(L, ty, parts):
 
 
 def queries(tier):
-    th = tier == 'thorough'
+    deep = 1 if tier == 'thorough' else 0      # the former thorough bounds are the quick bounds now
+    th = True
     qs = []
     for ty in PT_VARIANTS:
-        for n in lens(6 if th else 5):
+        for n in lens(6 + deep):
             qs.append(Query('split %s ⟦%d⟧' % (ty, n), h_split, {'ty': ty, 'n': n}, bound='combined name = every valid-UTF-8 string of %d bytes' % n))
-        for n in lens(4 if th else 3, 1):
+        for n in lens(4 + deep, 1):
             qs.append(Query('inverse pkg:%s/⟦%d⟧' % (ty, n), h_inverse, {'ty': ty, 'parts': ['pkg:%s/' % ty, ('hole', 'h', n)]}, bound='typed PURL pkg:%s/⟦%d⟧' % (ty, n)))
             qs.append(Query('inverse pkg:%s/a/⟦%d⟧' % (ty, n), h_inverse, {'ty': ty, 'parts': ['pkg:%s/a/' % ty, ('hole', 'h', n)]}, bound='typed PURL pkg:%s/a/⟦%d⟧' % (ty, n)))
         qs.append(Query('inverse pkg:%s/⟦2⟧/⟦2⟧' % ty, h_inverse, {'ty': ty, 'parts': ['pkg:%s/' % ty, ('hole', 'h', 2), '/', ('hole', 'g', 2)]}, bound='namespace and name holes of 2 bytes'))
